@@ -11,10 +11,12 @@ and lazily with a given chunking (twice).  Oracles (all independent of abtem/noi
                      6-sigma level 1.97e-9 (no normal approximation);
   * reproducible     same seed, same call -> bit-identical arrays (eager and lazy);
   * lazy == eager    for a fixed seed the computed lazy result must be bit-identical to the eager one, for every chunking;
-  * independence     members with identical lambda (ensemble members with equal signal, Poisson samples, and both together) must
-                     not be exact duplicates (only judged when the probability of a chance duplicate, computed exactly as
-                     prod_p exp(-2 lambda_p) I0(2 lambda_p), is < 1e-12) and their standardised residuals must be uncorrelated:
-                     |rho| <= 6/sqrt(N) over the N >= 256 pixels with lambda >= 10;
+  * independence     members with identical lambda (ensemble members with equal signal, Poisson samples, repeated doses, and all of
+                     them together) must not be exact duplicates -- EVERY such pair along every leading axis is covered by hashing
+                     (only judged when the probability of a chance duplicate, computed exactly as prod_p exp(-2 lambda_p)
+                     I0(2 lambda_p), is < 1e-12) -- and standardised residuals must be uncorrelated, |rho| <= 6/sqrt(N) over the
+                     N >= 256 pixels with lambda >= 10, for neighbouring members along every axis (any lambda) and further
+                     pairs of equal lambda;
   * block hook       a wrapper on NoiseTransform._calculate_new_array (installed before the graph is built) records
                      (seed, block shape) per call; the number of calls must equal the number of dask blocks and the evidence
                      shows how many blocks shared one stream.
@@ -37,7 +39,7 @@ TECHNIQUE = "runtime monitoring; exact Poisson tail test + duplicate/correlation
 RULE = ("measurement type (5), 0-3 ensemble axes (ordinal/scan/plain/frozen-phonon, sizes 1-5), base shapes 1-D 16-96 or 2-D 6-32 per "
         "side, signal = base pattern x member scale (members equal / scaled / unrelated), levels 1e-3..1e4 with zeros and negative "
         "pixels, size-1 base axes, dose total or per-area, scalar (float/int/numpy scalar, 0) or 1-3 doses (0 allowed), samples 1-4 (int or "
-        "numpy int), seed None / random int / hostile (0, 1, 2**31-1, 2**32-1, 2**32, 2**63-1, 2**64+5) as python or numpy integer, chunkings: one block / per member / random "
+        "numpy int), dose sequences with repeated values (45 %), seed None / random int / hostile (0, 1, 2**31-1, 2**32-1, 2**32, 2**63-1, 2**64+5) as python or numpy integer, chunkings: one block / per member / random "
         "per axis / base axes split, float32 or float64, threaded or synchronous scheduler; non-trivial = at least 2 members with "
         "identical lambda and sum(lambda) >= 100; distinct = distinct case signature")
 CLAUSES = ["counts-nonnegative-whole", "expectation", "seed-reproducible", "lazy-equals-eager", "independent-no-duplicates",
@@ -76,13 +78,19 @@ def gen(rng, tier):
         ens.append({"kind": kind, "n": int(rng.choice([1, 2, 2, 3, 4, 5])), "sampling": float(rng.uniform(0.1, 1.5))})
     while int(np.prod([e["n"] for e in ens] + [1])) > 40:
         ens[int(rng.integers(0, len(ens)))]["n"] = 2
-    ndose = int(rng.choice([0, 0, 0, 2, 3]))
+    ndose = int(rng.choice([0, 0, 0, 2, 3, 3]))
     level = float(10 ** rng.uniform(-3, 4))
     dose_scale = float(10 ** rng.uniform(-1, 3))
     if form == "area":
         dose_scale *= 10.0
     ndose = int(rng.choice([ndose, ndose, ndose, 1]))          # a one-element dose sequence is a sequence too
     dose = dose_scale if ndose == 0 else [float(dose_scale * 10 ** rng.uniform(-0.7, 0.7)) for _ in range(ndose)]
+    if ndose >= 2 and rng.random() < 0.45:
+        # members that share their parameters: the same dose more than once (repeated exposures)
+        i, j = rng.choice(ndose, size=2, replace=False)
+        dose[int(j)] = dose[int(i)]
+        if ndose == 3 and rng.random() < 0.3:
+            dose = [dose[int(i)]] * 3
     scalar_as = str(rng.choice(["float", "float", "float", "int", "np.float32", "np.float64"]))
     r = rng.random()
     if r < 0.06:                          # dose 0: every count must be 0
@@ -176,6 +184,12 @@ def fixed_cases(tier):
         case(dose={"form": "total", "v": 7.0, "as": "list", "scalar_as": "int"}, samples=2, samples_as="np.int64", seed=0,
              chunks=[4, 3, 24, 20]),
         case(base=[1, 20], chunks=[2, 3, 1, 20], seed=0, level=300.0),
+        # members sharing their parameters: repeated doses (with / without seed, samples, per-area form, no other ensemble axis)
+        case(dose={"form": "total", "v": [5.0, 5.0, 20.0], "as": "list"}, chunks=[4, 3, 24, 20]),
+        case(dose={"form": "total", "v": [20.0, 5.0, 20.0], "as": "tuple"}, seed=None, chunks=[2, 3, 24, 20]),
+        case(dose={"form": "total", "v": [8.0, 8.0], "as": "ndarray"}, samples=2, ens=[], chunks=[24, 20], level=40.0),
+        case(mtype="dp", ens=scan2, dose={"form": "area", "v": [3000.0, 3000.0, 3000.0], "as": "ndarray"}, chunks=[3, 4, 24, 20], level=5.0,
+             seed=0),
         case(mtype="rline", base=[1], ens=[{"kind": "ordinal", "n": 4, "sampling": 1.0}], chunks=[4, 1], seed=0, level=500.0),
     ]
 
@@ -358,32 +372,66 @@ def member_groups(lam, n_lead):
     return [g for g in groups.values() if len(g) > 1]
 
 
-def check_independence(ctx, arr, lam, n_lead, where, same_block=None, max_pairs=60):
-    """Duplicate and correlation monitors over pairs of members with identical lambda.
+def check_independence(ctx, arr, lam, n_lead, where, same_block=None, max_pairs=150):
+    """Duplicate and correlation monitors over pairs of members.
+
+    * exact duplicates: EVERY pair of members with identical lambda (along every leading axis: doses, samples, ensemble axes)
+      is covered by hashing the members of each group;
+    * correlation: neighbouring members along every leading axis first (whatever their lambda: independent noise is
+      uncorrelated for any two members), then the remaining pairs inside the groups of identical lambda, up to `max_pairs`.
     same_block(idx_a, idx_b) -> bool restricts the pairs (used when the known finding explains cross-block pairs)."""
     a = np.asarray(arr, dtype=np.float64)
-    npairs = 0
-    for g in member_groups(lam, n_lead):
-        l = lam[g[0]]
-        logp = log_prob_chance_duplicate(l)
-        strong = l >= 10.0
+    lead = a.shape[:n_lead]
+    groups = member_groups(lam, n_lead)
+    # ---- duplicates: all pairs of every group
+    for g in groups:
+        logp = log_prob_chance_duplicate(lam[g[0]])
+        if logp >= math.log(1e-12):
+            continue
+        buckets = {}
+        for idx in g:
+            buckets.setdefault(a[idx].tobytes(), []).append(idx)
+        dup = [(ia, ib) for b in buckets.values() if len(b) > 1 for ia, ib in itertools.combinations(b, 2)
+               if same_block is None or same_block(ia, ib)]
+        npairs = len(g) * (len(g) - 1) // 2
+        ctx.clauses["independent-no-duplicates"] += max(npairs - 1, 0)
+        ctx.expect(not dup, "independent-no-duplicates", where=where, pairs=[[list(x), list(y)] for x, y in dup[:5]],
+                   n_duplicate_pairs=len(dup), group_size=len(g), log_prob_chance=logp)
+    # ---- correlation
+    pairs = []
+    seen = set()
+    for ax in range(n_lead):
+        for idx in np.ndindex(*lead):
+            if idx[ax] + 1 < lead[ax]:
+                other = idx[:ax] + (idx[ax] + 1,) + idx[ax + 1:]
+                pairs.append((idx, other))
+                seen.add((idx, other))
+    if len(pairs) > max_pairs // 2:
+        # keep the pairs of every axis represented
+        step = len(pairs) / (max_pairs // 2)
+        pairs = [pairs[int(i * step)] for i in range(max_pairs // 2)]
+    for g in groups:
+        for pr in itertools.combinations(g, 2):
+            if len(pairs) >= max_pairs:
+                break
+            if pr not in seen:
+                pairs.append(pr)
+    done = 0
+    for ia, ib in pairs:
+        if same_block is not None and not same_block(ia, ib):
+            continue
+        la, lb = lam[ia], lam[ib]
+        strong = (la >= 10.0) & (lb >= 10.0)
         n = int(strong.sum())
-        for ia, ib in itertools.combinations(g, 2):
-            if same_block is not None and not same_block(ia, ib):
-                continue
-            if npairs >= max_pairs:
-                return npairs
-            npairs += 1
-            if logp < math.log(1e-12):
-                ctx.expect(not np.array_equal(a[ia], a[ib]), "independent-no-duplicates", where=where, a=list(ia), b=list(ib),
-                           log_prob_chance=logp)
-            if n >= 256:
-                za = (a[ia][strong] - l[strong]) / np.sqrt(l[strong])
-                zb = (a[ib][strong] - l[strong]) / np.sqrt(l[strong])
-                rho = float(np.mean(za * zb))
-                ctx.close(rho, 0.0, "independent-correlation", rtol=0.0, atol=6.0 / math.sqrt(n), where=where, a=list(ia),
-                          b=list(ib), n=n)
-    return npairs
+        if n < 256:
+            continue
+        za = (a[ia][strong] - la[strong]) / np.sqrt(la[strong])
+        zb = (a[ib][strong] - lb[strong]) / np.sqrt(lb[strong])
+        rho = float(np.mean(za * zb))
+        ctx.close(rho, 0.0, "independent-correlation", rtol=0.0, atol=6.0 / math.sqrt(n), where=where, a=list(ia),
+                  b=list(ib), n=n, same_lambda=bool(np.array_equal(la, lb)))
+        done += 1
+    return done
 
 
 # --------------------------------------------------------------------------- the check
